@@ -23,7 +23,7 @@ NOT_DECIDED = ["equality of the rebuilt object with the original (needs executio
 
 
 def run(ctx, ss):
-    for r, f in (("C11.1", c11_1), ("C11.2", c11_2), ("C11.3", c11_3), ("C11.4", c11_4), ("C11.5", c11_5), ("C11.6", c11_6), ("C11.7", c11_7), ("C11.7", c11_8)):
+    for r, f in (("C11.1", c11_1), ("C11.2", c11_2), ("C11.3", c11_3), ("C11.4", c11_4), ("C11.5", c11_5), ("C11.6", c11_6), ("C11.7", c11_7), ("C11.7", c11_7b), ("C11.7", c11_7c), ("C11.7", c11_8)):
         ctx.guard(r, f, ss)
 
 
@@ -77,12 +77,16 @@ def c11_1(ctx, ss):
             why = f"constructs the mode with `{txt(c)[:80]}`: not every key of the input is forwarded"
     (ctx.holds if ok else ctx.violation)("C11.1", k, where(ff, ff.node), "from_dict forwards (a copy of) the whole input dictionary as keywords" if ok
                                           else f"from_dict: {why} — metadata keys of the dictionary form are dropped")
-    # constructor
+    ctor_clauses(ctx, ss, "C11.1")
+
+
+def ctor_clauses(ctx, ss, rule):
+    """DecayMode(bf, daughters, **info) keeps what it is given (shared by C11.1 and C12.5: flatten builds its result through it)"""
     ff, flow = fn(ss, DECAY, "DecayMode.__init__")
     k = ckey(ff, None, "ctor")
     st_bf = [s for s in pf.iter_stmts(ff.node.body) if isinstance(s, ast.Assign) and txt(s.targets[0]) == "self.bf"]
     ok = len(st_bf) == 1 and txt(st_bf[0].value) == "bf"
-    (ctx.holds if ok else ctx.violation)("C11.1", k + " :: bf", where(ff, ff.node), "self.bf = bf" if ok else "the branching fraction is not stored unchanged")
+    (ctx.holds if ok else ctx.violation)(rule, k + " :: bf", where(ff, ff.node), "self.bf = bf" if ok else "the branching fraction is not stored unchanged")
     st_d = [s for s in pf.iter_stmts(ff.node.body) if isinstance(s, ast.Assign) and txt(s.targets[0]) == "self.daughters"]
     okd = False
     if len(st_d) == 1:
@@ -96,13 +100,13 @@ def c11_1(ctx, ss):
                 conds = [(txt(e), pol) for kind, e, pol in guards.path_conditions(ff.node, d.stmt) if kind == "if"]
                 if conds != [("daughters is None and 'fs' in info", True)]:
                     okd = False
-    (ctx.holds if okd else ctx.violation)("C11.1", k + " :: fs", where(ff, ff.node),
+    (ctx.holds if okd else ctx.violation)(rule, k + " :: fs", where(ff, ff.node),
                                           "daughters = DaughtersDict(daughters, or info.pop('fs') when no daughters are given)" if okd
                                           else "the 'fs' entry of the dictionary form does not become the daughters")
     upd = [c for c in pf.calls_in(ff.node) if txt(c.func) == "self.metadata.update"]
     oku = bool(upd) and any((any(kw.arg is None and txt(kw.value) == "info" for kw in c.keywords) or (c.args and txt(c.args[0]) == "info"))
                             and not [x for x in guards.path_conditions(ff.node, stmt_of(ff, c)) if x[0] == "if"] for c in upd)
-    (ctx.holds if oku else ctx.violation)("C11.1", k + " :: metadata", where(ff, ff.node),
+    (ctx.holds if oku else ctx.violation)(rule, k + " :: metadata", where(ff, ff.node),
                                           "every extra keyword is stored in metadata" if oku else "extra keywords (user metadata) are not all stored")
     # metadata default keys
     st_m = [s for s in pf.iter_stmts(ff.node.body) if isinstance(s, (ast.Assign, ast.AnnAssign)) and txt(s.targets[0] if isinstance(s, ast.Assign) else s.target) == "self.metadata"]
@@ -110,7 +114,7 @@ def c11_1(ctx, ss):
     cfg = flow.cfg
     if okm and upd and not cfg.dominates(cfg.node_of(st_m[0]), cfg.node_of(stmt_of(ff, upd[0]))):
         okm = False
-    (ctx.holds if okm else ctx.violation)("C11.1", k + " :: defaults", where(ff, ff.node),
+    (ctx.holds if okm else ctx.violation)(rule, k + " :: defaults", where(ff, ff.node),
                                           "metadata starts with the two default keys, then takes the user's" if okm else "metadata defaults are missing or overwrite the user's values")
 
 
@@ -295,32 +299,83 @@ def c11_6(ctx, ss):
 
 def c11_7(ctx, ss):
     ff, flow = fn(ss, DECAY, "_build_decay_modes")
+    k = ckey(ff, None, "reader-positions")
     stores = [s for s in pf.iter_stmts(ff.node.body) if isinstance(s, ast.Assign) and isinstance(s.targets[0], ast.Subscript)
               and txt(s.targets[0].value) != ff.params[0]]
-    k = ckey(ff, None, "reader-positions")
-    if len(stores) != 1:
-        raise AnchorMissing("_build_decay_modes: expected one positional replacement")
-    st = stores[0]
-    lp = enclosing(ff, st, (ast.For,))
-    lp = lp[0] if lp else None
+    loops = [l for l in pf.iter_stmts(ff.node.body) if isinstance(l, ast.For) and any(txt(c.func) == "_build_decay_modes" for c in pf.calls_in(l))
+             and not any(isinstance(x, ast.For) and x is not l and any(txt(c.func) == "_build_decay_modes" for c in pf.calls_in(x)) for x in ast.walk(l))]
+    if len(loops) != 1:
+        raise AnchorMissing("_build_decay_modes: expected one loop that recurses into nested dictionaries")
+    lp = loops[0]
+    rec = [c for c in pf.calls_in(lp) if txt(c.func) == "_build_decay_modes"]
+    clean = not any(isinstance(x, (ast.Break, ast.Continue)) for x in ast.walk(lp)) and len(rec) == 1 and txt(rec[0].args[0]) == ff.params[0]
     ok = False
-    if lp is not None and isinstance(lp.iter, ast.Call) and txt(lp.iter.func) == "enumerate" and isinstance(lp.target, ast.Tuple):
+    form = "?"
+    if len(stores) == 1 and isinstance(lp.iter, ast.Call) and txt(lp.iter.func) == "enumerate" and isinstance(lp.target, ast.Tuple):
+        # in-place form: L[i] = key of the nested dictionary
+        st = stores[0]
+        form = "in place"
         idx, el = (e.id for e in lp.target.elts)
-        rec = [c for c in pf.calls_in(lp) if txt(c.func) == "_build_decay_modes"]
         conds = [(txt(e), pol) for kind, e, pol in guards.path_conditions(lp, st) if kind == "if"]
         ok = txt(st.targets[0].slice) == idx and txt(st.targets[0].value) == txt(lp.iter.args[0]) and txt(st.value) in (f"next(iter({el}.keys()))", f"next(iter({el}))") \
-            and conds == [(f"isinstance({el}, dict)", True)] and len(rec) == 1 and txt(rec[0].args[0]) == ff.params[0] \
-            and txt(rec[0].args[1]).endswith(f"[{idx}]") and not any(isinstance(x, (ast.Break, ast.Continue)) for x in ast.walk(lp))
+            and conds == [(f"isinstance({el}, dict)", True)] and clean and txt(rec[0].args[1]).endswith(f"[{idx}]")
+    elif not stores:
+        # append form: a fresh list receives, for every element in order, the key of a nested dictionary or the element itself
+        form = "append"
+        st = lp
+        el = lp.target.id if isinstance(lp.target, ast.Name) else (lp.target.elts[1].id if isinstance(lp.target, ast.Tuple) and len(lp.target.elts) == 2 else None)
+        apps = [c for c in pf.calls_in(lp) if isinstance(c.func, ast.Attribute) and c.func.attr == "append"]
+        if el and len(apps) == 2 and len({txt(c.func.value) for c in apps}) == 1:
+            byv = {}
+            for c in apps:
+                conds = [(txt(e), pol) for kind, e, pol in guards.path_conditions(lp, next(x for x in pf.iter_stmts(lp.body) if isinstance(x, ast.Expr) and x.value is c)) if kind == "if"]
+                byv[txt(c.args[0])] = conds
+            keyforms = [v for v in byv if v in (f"next(iter({el}.keys()))", f"next(iter({el}))")]
+            rconds = [(txt(e), pol) for kind, e, pol in guards.path_conditions(lp, next(x for x in pf.iter_stmts(lp.body) if isinstance(x, ast.Expr) and x.value is rec[0])) if kind == "if"] if len(rec) == 1 else None
+            ok = len(keyforms) == 1 and byv.get(keyforms[0]) == [(f"isinstance({el}, dict)", True)] and byv.get(el) == [(f"isinstance({el}, dict)", False)] and clean \
+                and rconds == [(f"isinstance({el}, dict)", True)] and (txt(rec[0].args[1]) == el or txt(rec[0].args[1]).endswith("]"))
+    else:
+        raise AnchorMissing("_build_decay_modes: positional replacement of nested dictionaries not understood")
     (ctx.holds if ok else ctx.violation)("C11.7", k, where(ff, st),
-                                          "each nested dictionary is replaced by its key at its own position and the reader recurses into that element" if ok
+                                          f"each nested dictionary is replaced by its key at its own position ({form}) and the reader recurses into that element" if ok
                                           else "the reader does not replace / recurse position by position")
-    # both branches build the mode through DecayMode.from_dict
+
+
+def c11_7b(ctx, ss):
+    """the mode stored for the mother carries every key of its dictionary (user metadata included)"""
+    ff, flow = fn(ss, DECAY, "_build_decay_modes")
     sets = [s for s in pf.iter_stmts(ff.node.body) if isinstance(s, ast.Assign) and isinstance(s.targets[0], ast.Subscript)
             and txt(s.targets[0].value) == ff.params[0]]
+    if not sets:
+        raise AnchorMissing("_build_decay_modes stores no mode")
     vals = [a for s in sets for a in phi_alts(flow.expand(s.value))]
-    okb = len(vals) == 2 and all(isinstance(v, ast.Call) and txt(v.func) == "DecayMode.from_dict" for v in vals)
-    (ctx.holds if okb else ctx.violation)("C11.7", ckey(ff, None, "reader-modes"), where(ff, ff.node),
-                                          "both branches store DecayMode.from_dict(<mode dictionary>) under the mother" if okb else "modes are not built through DecayMode.from_dict in both branches")
+    COPIES = ("deepcopy", "copy.deepcopy", "copy", "copy.copy", "dict")
+
+    def whole(e):
+        """e denotes (a copy of) one whole mode dictionary of the input"""
+        while True:
+            if isinstance(e, ast.Call) and txt(e.func) in COPIES and len(e.args) == 1 and not e.keywords:
+                e = e.args[0]
+            elif isinstance(e, ast.Call) and isinstance(e.func, ast.Attribute) and e.func.attr == "copy" and not e.args:
+                e = e.func.value
+            else:
+                break
+        return isinstance(e, ast.Call) and txt(e.func) == "__elem__"
+
+    bad = []
+    for v in vals:
+        if isinstance(v, ast.Call) and txt(v.func) in ("DecayMode.from_dict",) and len(v.args) == 1 and whole(v.args[0]):
+            continue
+        if isinstance(v, ast.Call) and txt(v.func) == "DecayMode" and any(kw.arg is None and "__elem__" in txt(kw.value) for kw in v.keywords):
+            continue
+        bad.append(txt(v)[:120])
+    okb = len(vals) >= 2 and not bad
+    (ctx.holds if okb else ctx.violation)("C11.7", ckey(ff, None, "reader-modes"), where(ff, sets[0]),
+                                          "every branch stores a DecayMode built from the whole mode dictionary (all keys carried)" if okb
+                                          else f"a mode is built as `{(bad or ['?'])[0]}`: keys of the mode dictionary other than the ones picked (user metadata) are lost")
+
+
+def c11_7c(ctx, ss):
     ch, cflow = fn(ss, DECAY, "DecayChain.from_dict")
     r = returns(ch)
     okc = len(r) == 1 and cflow.text(r[0].value) in ("cls(next(iter(decay_chain_dict.keys())), {})", "cls(next(iter(decay_chain_dict.keys())), decay_modes)") and \
